@@ -2,7 +2,7 @@ SPECIFICATION Spec
 CONSTANTS
   MaxMut = 2
   Depths = {1, 2, 3}
-  Alphabet = {"DeleteChild", "DuplicateChild", "SwapSiblings", "MoveUnderSibling", "Renamespace", "Rename", "AddUnknownChild", "AddKnownSibling", "MoveText", "DropAttr", "EmptyAttr", "HugeAttr", "NegativeAttr", "NonNumericAttr", "UnknownEnum", "Nest"}
+  Alphabet = {"DeleteChild", "DuplicateChild", "SwapSiblings", "MoveUnderSibling", "Renamespace", "Rename", "AddUnknownChild", "AddKnownSibling", "MoveText", "DuplicateWithOtherChild", "DropAttr", "EmptyAttr", "HugeAttr", "NegativeAttr", "NonNumericAttr", "UnknownEnum", "Nest"}
   MaxNodes = 12
 INVARIANTS WellFormed OneRoot
 VIEW View
